@@ -13,7 +13,8 @@ Model of the zone-file parser `hickory_proto::serialize::txt::zone::Parser::pars
 * `RData::from_tokens` for A, AAAA, NS, CNAME, PTR, ANAME, MX, SOA, SRV, TXT, HINFO, CAA (incl. the std
   `Ipv4Addr`/`Ipv6Addr`/`u16` `FromStr` parsers); the types `from_tokens` refuses are modelled as
   the error they are; HINFO, CAA, TLSA, SMIMEA, DS and SSHFP are modelled too (hex data = all remaining tokens
-  joined, `joinToks`); CERT, CSYNC, HTTPS, NAPTR, OPENPGPKEY, SMIMEA, SSHFP, SVCB,
+  joined, `joinToks`), so are CERT (base64 data = all remaining items joined, fix 1479f5a) and
+  OPENPGPKEY (one base64 item); CSYNC, HTTPS, NAPTR, OPENPGPKEY, SMIMEA, SSHFP, SVCB,
   TLSA are `unmodelled`;
 * `Context::insert`, `Ttl::take`, `RecordSet::from` / `RecordSet::insert` (rr/rr_set.rs).
 
@@ -306,7 +307,7 @@ def classOfStr (s : Str) : Option Nat :=
   else none
 
 inductive RType where
-  | a | aaaa | aname | cname | mx | ns | ptr | soa | srv | txt | hinfo | caa | tlsa | smimea | ds | sshfp
+  | a | aaaa | aname | cname | mx | ns | ptr | soa | srv | txt | hinfo | caa | tlsa | smimea | ds | sshfp | cert | openpgpkey
   /-- known mnemonic whose `from_tokens` is an unconditional error -/
   | refused
   /-- known, parseable, not modelled -/
@@ -316,7 +317,8 @@ inductive RType where
 def RType.code : RType → Nat
   | .a => 1 | .ns => 2 | .cname => 5 | .soa => 6 | .ptr => 12 | .mx => 15 | .txt => 16
   | .aaaa => 28 | .srv => 33 | .aname => 65305 | .hinfo => 13 | .caa => 257
-  | .tlsa => 52 | .smimea => 53 | .ds => 43 | .sshfp => 44 | .refused => 0 | .other => 0
+  | .tlsa => 52 | .smimea => 53 | .ds => 43 | .sshfp => 44 | .cert => 37 | .openpgpkey => 61
+  | .refused => 0 | .other => 0
 
 /-- mnemonics `RecordType::from_str` knows and `RData::from_tokens` refuses unconditionally -/
 def refusedNames : List Str :=
@@ -338,13 +340,11 @@ def refusedNames : List Str :=
 
 /-- mnemonics that are parseable by hickory and not modelled here -/
 def otherNames : List Str :=
-  [[67, 69, 82, 84],
-   [67, 83, 89, 78, 67],
+  [[67, 83, 89, 78, 67],
    [72, 84, 84, 80, 83],
    [78, 65, 80, 84, 82],
-   [79, 80, 69, 78, 80, 71, 80, 75, 69, 89],
    [83, 86, 67, 66]]
-  -- CERT, CSYNC, HTTPS, NAPTR, OPENPGPKEY, SVCB
+  -- CSYNC, HTTPS, NAPTR, SVCB
 
 /-- `RecordType::from_str` (on the upper-cased token) -/
 def typeOfStr (s : Str) : Option RType :=
@@ -364,6 +364,8 @@ def typeOfStr (s : Str) : Option RType :=
   else if s = [83, 77, 73, 77, 69, 65] then some .smimea
   else if s = [68, 83] then some .ds
   else if s = [83, 83, 72, 70, 80] then some .sshfp
+  else if s = [67, 69, 82, 84] then some .cert
+  else if s = [79, 80, 69, 78, 80, 71, 80, 75, 69, 89] then some .openpgpkey
   else if refusedNames.contains s then some .refused
   else if otherNames.contains s then some .other
   else none
@@ -381,6 +383,8 @@ inductive RData where
   | tlsa (smimea : Bool) (usage selector matching : Nat) (data : Bytes)
   | ds (tag alg dtype : Nat) (digest : Bytes)
   | sshfp (alg fptype : Nat) (fp : Bytes)
+  | cert (ctype tag alg : Nat) (data : Bytes)
+  | openpgpkey (key : Bytes)
   deriving DecidableEq, Repr, Inhabited
 
 /-- derived `PartialEq` of `RData`: embedded names compare with `Name::eq` (case-insensitive) -/
@@ -398,6 +402,8 @@ def RData.eqv : RData → RData → Bool
   | .tlsa s u l m d, .tlsa s' u' l' m' d' => s == s' && u == u' && l == l' && m == m' && d == d'
   | .ds t g y d, .ds t' g' y' d' => t == t' && g == g' && y == y' && d == d'
   | .sshfp g y f, .sshfp g' y' f' => g == g' && y == y' && f == f'
+  | .cert c t g d, .cert c' t' g' d' => c == c' && t == t' && g == g' && d == d'
+  | .openpgpkey k, .openpgpkey k' => k == k'
   | _, _ => false
 
 /-- UTF-8 encoding of one scalar value -/
@@ -451,6 +457,40 @@ def dsAlgorithm (s : Str) : Option Nat :=
   else if s = [80, 82, 73, 86, 65, 84, 69, 68, 78, 83] then some 253
   else if s = [80, 82, 73, 86, 65, 84, 69, 79, 73, 68] then some 254
   else parseU8 s
+
+/-! ### base64 data (`data_encoding::BASE64`: padded, trailing bits checked, nothing ignored) -/
+
+def b64Val (c : Nat) : Option Nat :=
+  if 65 ≤ c ∧ c ≤ 90 then some (c - 65)
+  else if 97 ≤ c ∧ c ≤ 122 then some (c - 71)
+  else if 48 ≤ c ∧ c ≤ 57 then some (c + 4)
+  else if c = 43 then some 62
+  else if c = 47 then some 63
+  else none
+
+/-- one block of four characters: 4, 3 or 2 symbols followed by `=` padding; the bits that do not
+make a whole octet must be zero -/
+def b64Block (a b c d : Nat) : Option Bytes :=
+  if d ≠ 61 then
+    match b64Val a, b64Val b, b64Val c, b64Val d with
+    | some w, some x, some y, some z => some [w * 4 + x / 16, x % 16 * 16 + y / 4, y % 4 * 64 + z]
+    | _, _, _, _ => none
+  else if c ≠ 61 then
+    match b64Val a, b64Val b, b64Val c with
+    | some w, some x, some y => if y % 4 = 0 then some [w * 4 + x / 16, x % 16 * 16 + y / 4] else none
+    | _, _, _ => none
+  else if b ≠ 61 then
+    match b64Val a, b64Val b with
+    | some w, some x => if x % 16 = 0 then some [w * 4 + x / 16] else none
+    | _, _ => none
+  else none                                   -- three or four `=` : Padding error
+
+/-- `BASE64.decode` : the length must be a multiple of 4; every block is decoded on its own (a
+padded block may be followed by further blocks) -/
+def base64Decode : Str → Option Bytes
+  | [] => some []
+  | a :: b :: c :: d :: rest => (b64Block a b c d).bind fun x => (base64Decode rest).map (x ++ ·)
+  | _ => none                                 -- Length error
 
 def nextTok (what : List Str) : ZR (Str × List Str) :=
   match what with
@@ -514,6 +554,16 @@ def rdataFromTokens (t : RType) (toks : List Str) (origin : Option Name) : ZR RD
       if fp.isEmpty then .err else
       (ZR.ofOption (hexDecodeLoose fp)).bind fun d =>
         if !r.isEmpty then .err else .ok (.sshfp alg fpt d)     -- "too many fields for SSHFP"
+  | .cert =>
+    (nextTok toks).bind fun (x, r) => (ZR.ofOption (parseU16 x)).bind fun ctype =>
+    (nextTok r).bind fun (x, r) => (ZR.ofOption (parseU16 x)).bind fun tag =>
+    (nextTok r).bind fun (x, r) => (ZR.ofOption (parseU8 x)).bind fun alg =>
+      -- all remaining items, concatenated (RFC 4398 2.2; fix 1479f5a); none at all is an error
+      if r.isEmpty then .err
+      else (ZR.ofOption (base64Decode (joinToks r))).bind fun d => .ok (.cert ctype tag alg d)
+  | .openpgpkey =>
+    (nextTok toks).bind fun (k, r) => (ZR.ofOption (base64Decode k)).bind fun d =>
+      if !r.isEmpty then .err else .ok (.openpgpkey d)          -- "too many fields for OPENPGPKEY"
   | .refused => .err
   | .other => .unmodelled
 
